@@ -275,3 +275,32 @@ def now():
 
 def log(*a):
     print(*a, file=sys.stderr, flush=True)
+
+
+# ---------------------------------------------------------------------------
+# the same check under `python -O` (asserts and `if __debug__` blocks stripped): a property holds there too
+
+
+def optimized_job(jobs):
+    """Append the -O pass to a job list unless this already is that pass."""
+    if not os.environ.get("VERIF_NO_OPT"):
+        jobs.append({"part": "optimized"})
+    return jobs
+
+
+def run_optimized(pid, tier, res):
+    """Run the whole check once more in a `python -O` interpreter; what it sees is reported here."""
+    import subprocess
+    import tempfile
+
+    with tempfile.TemporaryDirectory() as tmp:
+        env = dict(os.environ, VERIF_FULLRUN="1", VERIF_NO_OPT="1", VERIF_EVIDENCE_DIR=tmp, VERIF_REPLAY_DIR=tmp)
+        r = subprocess.run([sys.executable, "-O", "-m", "mc.cli", pid, "--tier", tier, "--workers", "8"], capture_output=True, text=True, cwd=VERIF_DIR, env=env, timeout=1500)
+    seen = sorted(l[len("SEEN signature="):].strip() for l in r.stdout.splitlines() if l.startswith("SEEN signature="))
+    res.case(("optimized", pid))
+    res.counters["python_O_pass_ran"] += 1
+    if r.returncode != 0 and not seen:
+        raise HarnessError(f"the -O pass of {pid} failed: {(r.stdout + r.stderr)[-800:]}")
+    for sig in seen:
+        res.violation("under-python-O:" + sig, {"part": "optimized", "tier": tier}, f"with `python -O` (asserts and __debug__ blocks stripped) the check reports: {sig}")
+    return seen
